@@ -315,7 +315,11 @@ pub fn run_c03(args: &Args, tier: &str, seed: u64) -> Report {
     if only.is_none() {
         let elig = rep.counters.get("cases_with_3plus_attr_group").copied().unwrap_or(0);
         let multi = rep.counters.get("cases_with_3plus_attr_group_multiple_orders").copied().unwrap_or(0);
-        rep.require(elig > 50 && multi * 2 > elig, &format!("map iteration orders varied ({multi}/{elig} eligible cases saw >1 attribute order)"));
+        let mem = rep.counters.get("cases_with_3plus_attr_group_multiple_in_memory_orders").copied().unwrap_or(0);
+        // diversity of iteration orders is observed and reported, not demanded: a library whose containers are ordered, or whose
+        // encoder sorts, legitimately shows one order only (and then satisfies "however the maps iterate" trivially)
+        rep.require(elig > 50, &format!("enough cases with a group of >= 3 attributes ({elig})"));
+        rep.extra.insert("iteration_order_diversity".into(), J::Str(format!("{mem}/{elig} eligible cases saw more than one in-memory iteration order across instances; {multi}/{elig} saw more than one attribute order on the wire")));
         let kinds = rep.sets.get("kinds").map(|s| s.len()).unwrap_or(0);
         rep.require(kinds == 22, &format!("all 22 value kinds exercised (saw {kinds})"));
     }
@@ -340,6 +344,7 @@ pub(crate) fn c03_case(rep: &mut Report, m: &Model, seed: u64, idx: u64, trials:
     let expected = m.clone().normalize();
     let replay = vec!["c03".to_string(), "--seed".into(), seed.to_string(), "--only".into(), idx.to_string()];
     let mut orders: HashSet<u64> = HashSet::new();
+    let mut mem_orders: HashSet<u64> = HashSet::new();
     let eligible = m.groups.iter().any(|g| g.attrs.len() >= 3);
     let mut noted = false;
     for t in 0..trials {
@@ -350,7 +355,16 @@ pub(crate) fn c03_case(rep: &mut Report, m: &Model, seed: u64, idx: u64, trials:
         if via_add {
             rep.count("instances_built_by_additions", 1);
         }
-        let enc = catch(|| if via_add { mirror::to_ipp_via_add(m, seed ^ idx.wrapping_mul(31) ^ t as u64) } else { mirror::to_ipp(m) }.to_bytes().to_vec());
+        let enc = catch(|| {
+            let r = if via_add { mirror::to_ipp_via_add(m, seed ^ idx.wrapping_mul(31) ^ t as u64) } else { mirror::to_ipp(m) };
+            // the iteration order the in-memory maps happen to have in this instance (the "schedule" of this property)
+            let mem: Vec<u8> = r.attributes().groups().iter().flat_map(|g| g.attributes().keys().flat_map(|k| k.bytes().chain([0u8])).chain([1u8])).collect();
+            (r.to_bytes().to_vec(), hash64(&mem))
+        });
+        let enc = enc.map(|(b, h)| {
+            mem_orders.insert(h);
+            b
+        });
         let bytes = match enc {
             Ok(b) => b,
             Err(p) => {
@@ -415,6 +429,9 @@ pub(crate) fn c03_case(rep: &mut Report, m: &Model, seed: u64, idx: u64, trials:
         rep.count("cases_with_3plus_attr_group", 1);
         if orders.len() > 1 {
             rep.count("cases_with_3plus_attr_group_multiple_orders", 1);
+        }
+        if mem_orders.len() > 1 {
+            rep.count("cases_with_3plus_attr_group_multiple_in_memory_orders", 1);
         }
     }
 }
